@@ -769,3 +769,52 @@ def subset_violation(A, B):
       continue
     ds.append(AND(g, NOT(OR(*[AND(g2, row_ident(r, r2)) for g2, r2 in B.slots if g2 is not False]))))
   return OR(*ds)
+
+
+def order_limit_rel(rel, keys, limit, assumptions):
+  """ORDER BY keys [(column index, desc)] LIMIT limit over a slot list.  Appends to
+  `assumptions` that sort keys of present rows are non-null and pairwise distinct (the
+  order must be total for the result to be determined)."""
+  slots = rel.slots
+  n = len(slots)
+
+  def before(r1, r2):
+    """row r1 sorts strictly before r2."""
+    res = False
+    eq_prefix = True
+    for c, desc in keys:
+      a, b = r1[c], r2[c]
+      if not (isinstance(a, S) and isinstance(b, S)):
+        raise Unsupported('ORDER BY structured column')
+      lt = LT(_num(b), _num(a)) if desc else LT(_num(a), _num(b))
+      res = OR(res, AND(eq_prefix, lt))
+      eq_prefix = AND(eq_prefix, EQ(_num(a), _num(b)))
+    return res, eq_prefix
+  for i in range(n):
+    for c, _ in keys:
+      assumptions.append(IMPLIES(slots[i][0], NOT(slots[i][1][c].null)))
+    for j in range(i):
+      _, same = before(slots[i][1], slots[j][1])
+      assumptions.append(IMPLIES(AND(slots[i][0], slots[j][0]), NOT(same)))
+  rank = []
+  for i in range(n):
+    cnt = []
+    for j in range(n):
+      if i == j:
+        continue
+      b, _ = before(slots[j][1], slots[i][1])
+      cnt.append(B2I(AND(slots[j][0], b)))
+    rank.append(SUM(cnt))
+  kmax = n if limit is None else min(limit, n)
+  out = []
+  for p in range(kmax):
+    guard = OR(*[AND(slots[i][0], EQ(rank[i], p)) for i in range(n)])
+    row = None
+    for i in reversed(range(n)):
+      c = AND(slots[i][0], EQ(rank[i], p))
+      if row is None:
+        row = list(slots[i][1])
+      else:
+        row = [ite_val(c, a, b) for a, b in zip(slots[i][1], row)]
+    out.append((guard, row))
+  return Rel(rel.cols, out, ordered=True, distinct=rel.distinct)
